@@ -127,6 +127,7 @@ namespace vf::rt {
         std::atomic<bool> monitor_on{false};
         std::vector<Perturb> plan;
         std::function<std::string()> diagnose;    // extra text for deadlock verdicts
+        std::function<bool()> awaited_signal_missing;    // true while the signal the main thread waits for has not been produced
         std::function<void(int, void const*, std::uint64_t, std::uint64_t)> user_hook;
     };
     inline Globals& G()
@@ -421,7 +422,10 @@ namespace vf::rt {
                     if (!G().main_waiting.load() || G().external_actors.load() != 0 || stop.load()) { quiet = 0; continue; }
                     // no suspended task at all: the state is only stuck if the global activity count
                     // leaked (otherwise the waiting main thread is merely about to notice)
-                    if (quiet >= K && G().main_waiting_for_signal.load())
+                    // (the waiting main thread may simply not have been scheduled yet after the signal was
+                    // produced: the harness must confirm that the awaited signal is still missing)
+                    if (G().main_waiting_for_signal.load() && G().awaited_signal_missing && !G().awaited_signal_missing()) { quiet = 0; continue; }
+                    if (quiet >= K && G().main_waiting_for_signal.load() && G().awaited_signal_missing)
                     {
                         std::string extra = G().diagnose ? G().diagnose() : std::string();
                         fail_now("no_signal_quiescent", "the main thread waits for a completion signal, but the runtime is quiescent for " + std::to_string(K) +
